@@ -1,10 +1,15 @@
 /-!
 # C28 — executable model of the outline emission
 
-`oxidize-pdf-core/src/writer/pdf_writer/mod.rs` `write_outline_tree` / `write_outline_item`
-(id pool reserved up front, `id_index` consumed in pre-order, sibling links taken from the pool
-**by sibling position**), `structure/outline.rs` `count_all`, `count_visible`,
-`OutlineTree::visible_count`, `outline_item_to_dict` (`/Count` with sign).  Import-free.
+`oxidize-pdf-core/src/writer/pdf_writer/mod.rs` `write_outline_tree` / `write_outline_item` /
+`outline_sibling_ids` (id pool reserved up front, `id_index` consumed in pre-order, the ids of a
+sibling list computed from the subtree sizes), `structure/outline.rs` `count_all`,
+`count_visible`, `OutlineTree::visible_count`, `outline_item_to_dict` (`/Count` with sign).
+Import-free.
+
+The definitions suffixed `Old` / `posCode` transcribe the code as it was before the two repairs
+(sibling ids looked up **by sibling position**, closed `/Count` = minus all descendants); the
+check keeps them as the regressions it must catch.
 
 An item carries only what the link graph depends on: the open flag and the children; titles and
 destinations are identified by the item's pre-order position.
@@ -58,8 +63,15 @@ mutual
     | c :: cs => c.visible + visibleList cs
 end
 
-/-- `/Count` as `outline_item_to_dict` computes it (only when the item has children) -/
+/-- `/Count` as `outline_item_to_dict` computes it (only when the item has children):
+open — `count_visible() - 1`; closed — minus `children.iter().map(count_visible).sum()` -/
 def Item.countEntry (it : Item) : Option Int :=
+  if it.children.isEmpty then none
+  else if it.isOpen then some (Int.ofNat (it.visible - 1))
+  else some (- Int.ofNat (visibleList it.children))
+
+/-- `/Count` as the code computed it before the repair: closed — `-(count_all() - 1)` -/
+def Item.countEntryOld (it : Item) : Option Int :=
   if it.children.isEmpty then none
   else if it.isOpen then some (Int.ofNat (it.visible - 1))
   else some (- Int.ofNat (it.size - 1))
@@ -67,15 +79,70 @@ def Item.countEntry (it : Item) : Option Int :=
 /-- `all_ids[i]` (never out of range in the writer) -/
 def at' (pool : List Nat) (i : Nat) : Nat := pool.getD i 0
 
+/-! ## the writer as it is -/
+
+/-- `outline_sibling_ids(all_ids, first_idx, items)`: `idx` starts at `first_idx`, every item
+takes `all_ids[idx]` and advances `idx` by its `count_all()` -/
+def siblingIds (pool : List Nat) : Nat → List Item → List Nat
+  | _, [] => []
+  | idx, c :: rest => at' pool idx :: siblingIds pool (idx + c.size) rest
+
+/-- `ids[i]` -/
+def idAt (ids : List Nat) (i : Nat) : Nat := ids.getD i 0
+
 /-
-The traversal shared by the writer and by the reference link computation.  `pos j` is the pool
-index *relative to the first sibling's index* at which the writer looks up sibling `j`:
-the code uses `first_idx + j` (`pos = id`); the item really lives at
+`write_outline_item(item, item_id, parent_id, prev_id, next_id, all_ids, id_index)` with
+`*id_index = idx` on entry, and its `for (i, child)` loop (`ids` = `child_ids`, `n` =
+`item.children.len()`, `j` = `i`, `idx` = `*id_index` at the top of the iteration); records are
+returned in pre-order.
+-/
+mutual
+  def emitItemN (count : Item → Option Int) (pool : List Nat)
+      (itemId parent : Nat) (prev next : Option Nat) (idx : Nat) : Item → List Rec
+    | .mk o cs =>
+      let ids := siblingIds pool idx cs
+      let fl : Option Nat × Option Nat :=
+        if cs.isEmpty then (none, none)
+        else (some (idAt ids 0), some (idAt ids (ids.length - 1)))
+      { id := itemId, parent := parent, prev := prev, next := next,
+        first := fl.1, last := fl.2, count := count (.mk o cs) }
+        :: emitListN count pool itemId ids cs.length 0 idx cs
+  def emitListN (count : Item → Option Int) (pool : List Nat)
+      (parent : Nat) (ids : List Nat) (n j idx : Nat) : List Item → List Rec
+    | [] => []
+    | c :: rest =>
+      let childId := at' pool idx
+      let prev := if j > 0 then some (idAt ids (j - 1)) else none
+      let next := if j < n - 1 then some (idAt ids (j + 1)) else none
+      emitItemN count pool childId parent prev next (idx + 1) c
+        ++ emitListN count pool parent ids n (j + 1) (idx + c.size) rest
+end
+
+/-- `write_outline_tree`: root dictionary + all item dictionaries (pre-order); `rootId` is the
+outline root's object number, `pool` the reserved ids (`item_ids`) -/
+def writeTreeN (count : Item → Option Int) (rootId : Nat) (pool : List Nat) (items : List Item) :
+    Root × List Rec :=
+  if items.isEmpty then ({ first := none, last := none, count := none }, [])
+  else
+    let ids := siblingIds pool 0 items
+    ({ first := some (idAt ids 0), last := some (idAt ids (ids.length - 1)),
+       count := some (Int.ofNat (visibleList items)) },
+     emitListN count pool rootId ids items.length 0 0 items)
+
+/-- the model of the code -/
+def Impl.write (rootId : Nat) (pool : List Nat) (items : List Item) : Root × List Rec :=
+  writeTreeN Item.countEntry rootId pool items
+
+/-! ## the traversal with the sibling lookup as a parameter
+
+Used for the reference link graph (`posTrue`) and for the code before the repair (`posCode`).
+`pos sibs j` is the pool index *relative to the first sibling's index* at which sibling `j` is
+looked up: the unrepaired code used `first_idx + j`; the item really lives at
 `first_idx + (number of items in the subtrees of siblings 0..j-1)`.
 
+
 `emitList pos count pool parent firstIdx n j idx sibs rest` processes the siblings `rest`
-(= `sibs.drop j`, `n = sibs.length`) with `*id_index = idx`; returns records in pre-order.
--/
+(= `sibs.drop j`, `n = sibs.length`) with `*id_index = idx`; returns records in pre-order. -/
 mutual
   def emitItem (pos : List Item → Nat → Nat) (count : Item → Option Int) (pool : List Nat)
       (itemId parent : Nat) (prev next : Option Nat) (idx : Nat) : Item → List Rec
@@ -99,14 +166,13 @@ mutual
         ++ emitList pos count pool parent firstIdx n sibs (j + 1) (idx + c.size) rest
 end
 
-/-- sibling position as the writer computes it: `first_idx + j` -/
+/-- sibling position as the writer computed it before the repair: `first_idx + j` -/
 def posCode (_ : List Item) (j : Nat) : Nat := j
 
 /-- where sibling `j` really is: after the whole subtrees of siblings `0..j-1` -/
 def posTrue (sibs : List Item) (j : Nat) : Nat := sizeList (sibs.take j)
 
-/-- `write_outline_tree`: root dictionary + all item dictionaries (pre-order); `rootId` is the
-outline root's object number, `pool` the reserved ids -/
+/-- `write_outline_tree` over the parameterised traversal -/
 def writeTree (pos : List Item → Nat → Nat) (count : Item → Option Int)
     (rootId : Nat) (pool : List Nat) (items : List Item) : Root × List Rec :=
   if items.isEmpty then ({ first := none, last := none, count := none }, [])
@@ -115,9 +181,9 @@ def writeTree (pos : List Item → Nat → Nat) (count : Item → Option Int)
        count := some (Int.ofNat (visibleList items)) },
      emitList pos count pool rootId 0 items.length items 0 0 items)
 
-/-- the model of the code -/
-def Impl.write (rootId : Nat) (pool : List Nat) (items : List Item) : Root × List Rec :=
-  writeTree posCode Item.countEntry rootId pool items
+/-- the code before the repairs (sibling ids by position, closed `/Count` = −all descendants) -/
+def ImplOld.write (rootId : Nat) (pool : List Nat) (items : List Item) : Root × List Rec :=
+  writeTree posCode Item.countEntryOld rootId pool items
 
 /-! ## Spec side — ISO 32000-1 §12.3.3, Tables 152/153 -/
 namespace Spec
